@@ -75,13 +75,15 @@ func classifyRace(rep string) (sig string, lib bool, harnessOnly bool) {
 		if j := strings.Index(blk, "\n\n"); j >= 0 {
 			blk = blk[:j]
 		}
-		// the accessing frame: first frame not in runtime/sync internals
+		// the accessing frame: the innermost frame that is library or harness code. Frames of the standard library
+		// (runtime, sync, but also slices, maps, container/..., which the library may call on memory it shares) are
+		// attributed to their nearest caller outside the standard library.
 		fn := ""
 		frames := frameRe.FindAllStringSubmatch(blk, -1)
 		isLib := false
 		for _, fr := range frames {
 			name, file := fr[1], fr[2]
-			if strings.HasPrefix(name, "runtime.") || strings.HasPrefix(name, "sync/atomic.") || strings.HasPrefix(name, "sync.") || strings.HasPrefix(name, "internal/") {
+			if !strings.Contains(name, "github.com/aperturerobotics/util/") && !strings.HasPrefix(name, "verifharness/") && !strings.HasPrefix(name, "main.") {
 				continue
 			}
 			fn = name
